@@ -2,39 +2,48 @@ import PynModel.Basic
 /-!
 # `jitthreshold`
 The comparison `data > thr` (etc.) is done by NumPy before the scan; the model takes the Boolean
-mask `ix`.  Several reads are *not* guarded in the Python source (`time_array[t] < starts[k]`,
-and the tail `ix[t]`, `time_array[t]` with `t = 1` when `n ≤ 1`): they are checked reads here.
+mask `ix`.  The reads of `ends[k]` are *not* guarded in the Python source: they are checked reads here, and
+`PynProps/C15.lean: threshold_safe` proves the error unreachable for a series lying inside a canonical
+support (any length, 0 and 1 included, since `fix:` efb22ea).
 Midpoints `t[i] - (t[i] - t[i-1]) / 2` are kept exact by returning every boundary **doubled**
 (`t[i] + t[i-1]`, and `2 * t[i]` for a sample time).
 -/
 namespace Pyn
 
-/-- `while time_array[t] < starts[k]: k += 1` with t = 0 (both reads unguarded) -/
-def thrLead (ts st : Array Int) (k : Nat) : R Nat :=
-  if hk : k < st.size then
-    if ht : 0 < ts.size then
-      if ts[0] < st[k] then thrLead ts st (k+1) else .ok k
+/-- `while t < n and time_array[t] > ends[k]: k += 1` with t = 0 (the read `ends[k]` is unguarded) -/
+def thrLead (ts en : Array Int) (k : Nat) : R Nat :=
+  if ht : 0 < ts.size then
+    if hk : k < en.size then
+      if ts[0] > en[k] then thrLead ts en (k+1) else .ok k
     else .error .oob
+  else .ok k
+termination_by en.size - k
+
+/-- the inner `while time_array[t] > ends[k]: k += 1` of a transition (`ends[k]` unguarded) -/
+def thrSkip (en : Array Int) (tt : Int) (k : Nat) : R Nat :=
+  if hk : k < en.size then
+    if tt > en[k] then thrSkip en tt (k+1) else .ok k
   else .error .oob
-termination_by st.size - k
+termination_by en.size - k
 
 structure ThrSt where
   k : Nat
   ns : Array (Option Int)   -- new_start where ix_start is set (doubled)
   ne : Array (Option Int)   -- new_end where ix_end is set (doubled)
 
-/-- main loop `while t < n - 1` (reads `ends[k]` unguarded) -/
+/-- main loop `while t < n` (reads `ends[k]` unguarded) -/
 def thrLoop (ts : Array Int) (ix : Array Bool) (en : Array Int) (t : Nat) (s : ThrSt) : R ThrSt :=
-  if h : t + 1 < ts.size then do
+  if h : t < ts.size then do
     let tt ← rd ts t
     let tp ← rd ts (t-1)
     let ek ← rd en s.k
     let it ← rdB ix t
     let ip ← rdB ix (t-1)
     if tt > ek then
+      let k' ← thrSkip en tt s.k
       let ne := if ip then s.ne.setIfInBounds (t-1) (some (2*tp)) else s.ne
       let ns := if it then s.ns.setIfInBounds t (some (2*tt)) else s.ns
-      thrLoop ts ix en (t+1) { k := s.k + 1, ns := ns, ne := ne }
+      thrLoop ts ix en (t+1) { k := k', ns := ns, ne := ne }
     else
       let ns := if !ip && it then s.ns.setIfInBounds t (some (tt + tp)) else s.ns
       let ne := if ip && !it then s.ne.setIfInBounds t (some (tt + tp)) else s.ne
@@ -47,25 +56,19 @@ def thrInit (n : Nat) (i0 : Bool) (t0 : Int) (k : Nat) : ThrSt :=
   let none_ : Array (Option Int) := Array.replicate n none
   { k := k, ns := if i0 then none_.setIfInBounds 0 (some (2*t0)) else none_, ne := none_ }
 
-/-- result: (mask of kept samples, doubled new starts, doubled new ends) -/
+/-- result: (doubled new starts, doubled new ends), as the kernel stands after `fix:` d92f793 / 6abb03b / efb22ea -/
 def jitthreshold (ts : Array Int) (ix : Array Bool) (st en : Array Int) :
     R (Array Int × Array Int) := do
   let n := ts.size
-  let k ← thrLead ts st 0
-  let i0 ← rdB ix 0
-  let t0 ← rd ts 0
+  let k ← thrLead ts en 0
+  -- `if t < n and ix[t]` with t = 0
+  let i0 ← if 0 < n then rdB ix 0 else pure false
+  let t0 ← if 0 < n then rd ts 0 else pure 0
   let s ← thrLoop ts ix en 1 (thrInit n i0 t0 k)
-  -- after the loop `t = max 1 (n-1)`
-  let t := if n ≥ 2 then n - 1 else 1
-  let it ← rdB ix t
-  let ip ← rdB ix (t-1)
-  let tt ← rd ts t
-  let tp ← rd ts (t-1)
-  let ne1 := if it && ip then s.ne.setIfInBounds t (some (2*tt)) else s.ne
-  let (ns2, ne2) :=
-    if it && !ip then (s.ns.setIfInBounds t (some (tt + tp)), ne1.setIfInBounds t (some (2*tt)))
-    else if ip && !it then (s.ns, ne1.setIfInBounds t (some (tt + tp)))
-    else (s.ns, ne1)
-  pure (ns2.filterMap id, ne2.filterMap id)
+  -- `if n > 0 and ix[n - 1]`: the last sample closes the run it belongs to
+  let il ← if 0 < n then rdB ix (n-1) else pure false
+  let tl ← if 0 < n then rd ts (n-1) else pure 0
+  let ne1 := if il then s.ne.setIfInBounds (n-1) (some (2*tl)) else s.ne
+  pure (s.ns.filterMap id, ne1.filterMap id)
 
 end Pyn
